@@ -1,8 +1,8 @@
 """C03 - disorder values follow the definition.
 
 For alignments returned by the library (best, soft, fast) and hand-built ones (random partitions, slots listed in shuffled annotator order,
-with or without an attached continuum) the four observation points - Alignment.disorder, [u.disorder], Alignment.compute_disorder(d),
-UnitaryAlignment.compute_disorder(d) - are compared with the model: slots placed by row_of_ntuple, unitary disorder = ua_sum / C(n,2),
+with or without an attached continuum) the five observation points - Alignment.disorder, [u.disorder], Alignment.compute_disorder(d),
+UnitaryAlignment.compute_disorder(d), and the disorder a fresh Alignment computes lazily from the carried unitary disorders - are compared with the model: slots placed by row_of_ntuple, unitary disorder = ua_sum / C(n,2),
 alignment disorder = sum / (units / annotators), all in exact arithmetic on the values of d()."""
 from fractions import Fraction
 
@@ -134,6 +134,18 @@ def run(rep, tier, seed, pa):
                     break
         except Exception as e:
             bad.append(("compute_disorder-raises", "compute_disorder raised %r" % (e,)))
+        # a fresh Alignment built from the same unitary alignments (which now carry their disorders) without a disorder of its own: the
+        # property computes it lazily from the carried values - the fifth route to the same number
+        if not any(k.startswith("compute") or k.startswith("unitary-disorder") for k, _ in bad):
+            try:
+                from pygamma_agreement.alignment import Alignment as _Al, SoftAlignment as _SAl
+                fresh = (_SAl if kind == "soft" else _Al)(list(al.unitary_alignments), continuum=al.continuum if attached else None, check_validity=False)
+                v = fresh.disorder
+                obs["lazy_disorder"] = float(v)
+                if not close(v, al_exact, TAU2):
+                    bad.append(("lazy-disorder", "disorder computed from the carried unitary disorders %r, definition %r" % (float(v), float(al_exact))))
+            except Exception as e:
+                bad.append(("lazy-disorder-raises", "Alignment(...).disorder raised %r" % (e,)))
         # UnitaryAlignment.compute_disorder on each tuple
         for ua, e, r in zip(al.unitary_alignments, ua_exact, reals):
             try:
